@@ -92,6 +92,32 @@ class GenericK(Generic[T]):
     pass
 
 
+# user generics whose pseudo-superclass is another container hint (fixed-length tuple, variadic tuple, mapping, nested): what
+# is_subhint() has to line up, argument by argument, with the hint on the other side
+class PairTuple(tuple[int, str]):
+    pass
+
+
+class PairTupleT(tuple[T, str]):
+    pass
+
+
+class TripleTuple(tuple[int, int, int]):
+    pass
+
+
+class VarTupleSub(tuple[int, ...]):
+    pass
+
+
+class DictSub(dict[str, T]):
+    pass
+
+
+class ListOfListSub(list[list[T]]):
+    pass
+
+
 class BoxJunk(Generic[TJunkBound]):
     pass
 
@@ -171,6 +197,12 @@ ATOMS = {
     'GenericK_int': lambda: GenericK[int], 'GenericK_T': lambda: GenericK[T], 'ProtoGeneric_int': lambda: ProtoGeneric[int],
     'ListSub_int': lambda: ListSub[int], 'ListSub': lambda: ListSub, 'GenericProto': lambda: GenericProto,
     'GenericProto_impl': lambda: GenericProto[DataProtoImpl], 'NT_int': lambda: NT_int,
+    'PairTuple': lambda: PairTuple, 'PairTupleT_int': lambda: PairTupleT[int], 'PairTupleT': lambda: PairTupleT, 'TripleTuple': lambda: TripleTuple,
+    'VarTupleSub': lambda: VarTupleSub, 'DictSub_int': lambda: DictSub[int], 'ListOfListSub_int': lambda: ListOfListSub[int],
+    'tuple_int_var': lambda: tuple[int, ...], 'Tuple_int_var': lambda: typing.Tuple[int, ...], 'tuple_int_str': lambda: tuple[int, str],
+    'tuple_int3': lambda: tuple[int, int, int], 'tuple_empty': lambda: tuple[()], 'tuple_object_var': lambda: tuple[object, ...],
+    'dict_str_int': lambda: dict[str, int], 'Mapping_str_int': lambda: cabc.Mapping[str, int], 'list_list_int': lambda: list[list[int]],
+    'Sequence_int': lambda: cabc.Sequence[int],
     # generics over badly bounded type variables, subscripted by classes
     'BoxJunk_bool': lambda: BoxJunk[bool], 'BoxJunk_T': lambda: BoxJunk[T], 'BoxJunkList_int': lambda: BoxJunkList[int],
     'BoxJunkConstr_int': lambda: BoxJunkConstr[int], 'BoxMixedConstr_str': lambda: BoxMixedConstr[str],
@@ -335,6 +367,21 @@ def gen(rng, depth, deep=False):
         return {'a': rng.choice(_SHALLOW_ATOMS)}
     c = rng.choice(list(CTORS))
     return {'c': c, 'k': [gen(rng, depth - 1, deep) for _ in range(CTORS[c][0])]}
+
+
+# For comparisons: hints that stand in a container relation to a user generic (its own base, the variadic / fixed / bare forms of
+# that base, supertypes of it): is_subhint() then has to walk the generic's pseudo-superclasses against the other side's arguments
+RELATIVES = {
+    'PairTuple': ['tuple_int_var', 'Tuple_int_var', 'tuple_int_str', 'tuple_int3', 'tuple_empty', 'tuple_object_var', 'tuple', 'Sequence_int'],
+    'PairTupleT_int': ['tuple_int_var', 'Tuple_int_var', 'tuple_int_str', 'tuple_object_var', 'tuple', 'Sequence_int'],
+    'PairTupleT': ['tuple_int_var', 'tuple_int_str', 'tuple_object_var', 'tuple'],
+    'TripleTuple': ['tuple_int_var', 'tuple_int_str', 'tuple_int3', 'tuple_empty', 'tuple_object_var', 'Sequence_int'],
+    'VarTupleSub': ['tuple_int_var', 'tuple_int_str', 'tuple_int3', 'tuple_empty', 'Sequence_int'],
+    'DictSub_int': ['dict_str_int', 'Mapping_str_int', 'dict', 'tuple_int_var'],
+    'ListOfListSub_int': ['list_list_int', 'Sequence_int', 'list', 'ListSub_int'],
+    'ListSub_int': ['list_list_int', 'Sequence_int', 'list', 'tuple_int_var'],
+    'GenericK_int': ['GenericK', 'GenericK_T', 'list'],
+}
 
 
 def sibling(rng, tree):
